@@ -45,7 +45,8 @@ fn crate_invariants(ctx: &mut Ctx, ngens: usize, rels: &[Word]) -> Result<Vec<us
 }
 
 fn well_formed(inv: &[usize], ngens: usize) -> Option<String> {
-    if inv.windows(2).any(|p| p[0] > p[1]) {
+    let nzv: Vec<usize> = inv.iter().cloned().filter(|&x| x != 0).collect();
+    if nzv.windows(2).any(|p| p[0] > p[1]) {
         return Some("not ascending".into());
     }
     if inv.contains(&1) {
@@ -66,7 +67,11 @@ fn check_presentation(ctx: &mut Ctx, case: &Value, ngens: usize, rels: &[Word], 
     match crate_invariants(ctx, ngens, rels) {
         Ok(got) => {
             let g: Vec<i128> = got.iter().map(|&x| x as i128).collect();
-            if g != expected {
+            // accepted orders: numerically ascending (zeros first, what the crate does) or finite factors
+            // ascending followed by the zeros; the statement says "ascending" without placing the zeros
+            let mut zeros_last: Vec<i128> = expected.iter().cloned().filter(|&x| x != 0).collect();
+            zeros_last.extend(expected.iter().cloned().filter(|&x| x == 0));
+            if g != expected && g != zeros_last {
                 ctx.violation("wrong-invariants", case.clone(), format!("abelian_invariants({}, {:?}) = {:?}, expected {:?}", ngens, rels, got, expected), weight);
                 return false;
             }
